@@ -496,3 +496,105 @@ def apply_copy_inside_context(cx, touched, N=2):
     cx.prove_eq("after/superoperator_restored", SO._data, R0, tol=1e-7)
     st1 = manager_state(m)
     cx.prove("after/manager_restored", st1[0] == st0[0] == [0] and st1[2] == st0[2] == [])
+
+
+@harness("C04", "propagated_dynamics_in_context",
+         quick=[dict(kind=k) for k in ("none", "tensor", "lindblad_op", "td_tensor", "td_operators")],
+         thorough=[dict(kind=k) for k in ("none", "tensor", "lindblad_op", "lindblad_tensor", "td_tensor", "td_operators")] +
+                  [dict(kind="tensor", Nt=3)],
+         functions=FUNCS + ["quantarhei/qm/propagators/rdmpropagator.py:ReducedDensityMatrixPropagator.propagate",
+                            "quantarhei/qm/propagators/rdmpropagator.py:ReducedDensityMatrixPropagator._INIT_EXP",
+                            "quantarhei/qm/propagators/rdmpropagator.py:_COM", "quantarhei/qm/propagators/rdmpropagator.py:_TTI",
+                            "quantarhei/qm/propagators/rdmpropagator.py:_OTI",
+                            "quantarhei/qm/liouvillespace/tdredfieldtensor.py:TDRedfieldRelaxationTensor.transform",
+                            "quantarhei/qm/liouvillespace/redfieldtensor.py:RedfieldRelaxationTensor.transform"],
+         bound="N=2, 2 (3) stored times, expansion order 2: the same real "
+               "propagate() call outside and inside eigenbasis_of(H) (H given by its eigen-decomposition), generator: none / "
+               "arbitrary tensor with the C01 identities / Lindblad form in operator and tensor representation / "
+               "time-dependent tensor / time-dependent Redfield tensor in operator form (K_m real, Lambda_m(t) complex, "
+               "symbolic); the evolution obtained inside is presented there in the eigenbasis and equals, after the "
+               "context, the one obtained outside; Hamiltonian, initial state and generator are restored",
+         out="N=3 (without relaxation it did not finish in the 25 min instance limit); higher orders and refinement "
+             "(decided outside contexts by C02); field-driven propagation")
+def propagated_dynamics_in_context(cx, kind, N=2, Nt=2):
+    import quantarhei as qr
+    from quantarhei.qm import ReducedDensityMatrixPropagator, LindbladForm, TDRedfieldRelaxationTensor
+    from quantarhei.qm.liouvillespace.relaxationtensor import RelaxationTensor
+    from harness.common import build_sbi
+    nb = 1
+    ham, sbi, time_b = build_sbi(cx, N, nb, Nt=4)
+    with cx.concrete():
+        time = qr.TimeAxis(0.0, Nt, 1.0)
+        rhoi = qr.ReducedDensityMatrix(dim=N)
+    H, w, S = spectral_hamiltonian(cx, N)
+    ham._data = H.copy()
+    # genericity (so that every model replays with the same eigenvectors up to signs): separated levels, and for
+    # N=2 a rotation away from the identity and from the swap
+    for i in range(N - 1):
+        cx.assume(w[i + 1] - w[i] >= 0.1, "level spacing >= 0.1")
+    if N == 2:
+        s01 = S[0, 1].real if not cx.sym else S[0, 1]
+        cx.assume(((s01 >= 0.3) & (s01 <= 0.9)) | ((s01 <= -0.3) & (s01 >= -0.9)) if cx.sym else 0.3 <= abs(s01) <= 0.9,
+                  "0.3 <= |S[0,1]| <= 0.9")
+    rho0 = cx.hermitian("rho", N)
+    rhoi._data = rho0.copy()
+    RT, saved = None, {}
+    if kind == "tensor":
+        R0 = tensor_with_identities(cx, N)
+        RT = RelaxationTensor()
+        RT.dim = N
+        RT._data = R0.copy()
+        RT._data_initialized = True
+        saved = dict(_data=R0)
+    elif kind in ("lindblad_op", "lindblad_tensor"):
+        K = cx.real_array("K", (nb, N, N))
+        sbi.KK = K
+        sbi.rates = [cx.real("g%d" % m, 0.0, 0.2) for m in range(nb)]
+        RT = LindbladForm(ham, sbi, as_operators=(kind == "lindblad_op"))
+    elif kind == "td_tensor":
+        RT = TDRedfieldRelaxationTensor(ham, sbi, initialize=False)
+        Ntb = sbi.TimeAxis.length
+        data = numpy.empty((Ntb, N, N, N, N), dtype=object if cx.sym else complex)
+        for t in range(Ntb):
+            data[t] = tensor_with_identities(cx, N, "R%d_" % t)
+        RT._data = data.copy()
+        RT.Nt = Ntb
+        RT._data_initialized = True
+        RT.is_time_dependent = True
+        saved = dict(_data=data)
+    elif kind == "td_operators":
+        RT = TDRedfieldRelaxationTensor(ham, sbi, initialize=False, as_operators=True)
+        Ntb = sbi.TimeAxis.length
+        Km = cx.real_array("Km", (nb, N, N))
+        Lm = cx.cplx_array("Lm", (Ntb, nb, N, N))
+        Ld = numpy.empty((Ntb, nb, N, N), dtype=object if cx.sym else complex)
+        for t in range(Ntb):
+            for m_ in range(nb):
+                Ld[t, m_] = numpy.conj(Lm[t, m_].T)
+        RT.Km, RT.Lm, RT.Ld = Km.copy(), Lm.copy(), Ld.copy()
+        RT.Nt = Ntb
+        RT._is_initialized = True
+        RT.is_time_dependent = True
+        saved = dict(Km=Km, Lm=Lm, Ld=Ld)
+    prop = ReducedDensityMatrixPropagator(time, ham, RTensor=RT) if RT is not None else \
+        ReducedDensityMatrixPropagator(time, ham)
+    if kind.startswith("td_"):
+        RT.SystemBathInteraction.TimeAxis.step = 1.0
+    m = qr.Manager()
+    st0 = manager_state(m)
+    out = prop.propagate(rhoi, method="short-exp-2")
+    ref = numpy.array(out.data).copy()
+    cx.prove_eq("outside/initial", ref[0], rho0, tol=1e-9)
+    with qr.eigenbasis_of(ham):
+        Ss = list(m.basis_transformations[1:])      # the matrix the manager actually uses (column signs are LAPACK's)
+        inn = prop.propagate(rhoi, method="short-exp-2")
+        for i in range(Nt):
+            cx.prove_eq("inside/eigenbasis_representation[%d]" % i, inn.data[i], rep(Ss, ref[i]), tol=1e-7)
+    for i in range(Nt):
+        cx.prove_eq("after/same_dynamics_as_outside[%d]" % i, inn.data[i], ref[i], tol=1e-7)
+    cx.prove_eq("after/hamiltonian_restored", ham._data, H, tol=1e-7)
+    cx.prove_eq("after/initial_state_restored", rhoi._data, rho0, tol=1e-7)
+    for name, val in saved.items():
+        cx.prove_eq("after/generator_restored_%s" % name, getattr(RT, name), val, tol=1e-7)
+    st1 = manager_state(m)
+    cx.prove("after/manager_restored", st1[0] == st0[0] == [0] and st1[2] == st0[2] == [])
